@@ -73,7 +73,7 @@ def s_tmats(draw, hyp, n, shape, complex_=False, plain=False):
     special = "" if plain else \
         draw(st.sampled_from(["", "", "", "", "", "rounded" if hyp else "near-identity",
                               "near-identity" if not complex_ else "",
-                              "" if hyp else "scaled"]))
+                              "scaled"]))
     for _ in range(cnt):
         if special == "near-identity":
             d = [draw(st.sampled_from([5e-6, -5e-6, 2e-6, 8e-6])) for _ in range(n + 1)]
@@ -84,6 +84,9 @@ def s_tmats(draw, hyp, n, shape, complex_=False, plain=False):
             M = np.array(draw(objs.s_isometry(n)), dtype=float)
             if special == "rounded":
                 M = np.round(M, 4)
+            if special == "scaled":
+                # an isometry is a projective map too: its matrix in other units
+                M = M * draw(st.sampled_from([1e-4, 1e3, -2e-3, 3e-5]))
             mats.append(M.tolist())
         else:
             m = draw(objs.s_matrix(n + 1, complex_))
@@ -214,6 +217,10 @@ def make_action_body(kind):
 
         # --- identity
         if case["ilib"]:
+            # (an identity the caller got earlier and has since re-used for another map says
+            # nothing about the next one it asks for)
+            I_old = H.identity(n) if hyp else P.identity(n)
+            I_old.set(np.array(np.asarray(A.matrix).reshape((-1, n + 1, n + 1))[0], copy=True))
             I = H.identity(n) if hyp else P.identity(n)
             ctx.label("identity=library")
         else:
